@@ -96,19 +96,24 @@ PROPS = {
         bounded=[("bounded.c10", "run")],
         assumes=["A2", "A6", "A9"],
         trusted=["merge_dicts on config trees is proved equal to its spec and the spec is proved to be the union: a block path exists in "
-                 "the merge of any number of trees iff it exists in one of them (lemma merge_is_union_of_paths); the list / scalar "
-                 "branches of merge_dicts (ACL rule dicts), TreeGenerator block bookkeeping and _run_partial_generator are bounded only",
+                 "the merge of any number of trees iff it exists in one of them (lemma merge_is_union_of_paths); RunGeneratorResult.config_tree is "
+                 "proved to be that merge over all partial results, so the desired configuration has a block path iff some generator "
+                 "yielded it (lemma desired_config_is_the_union_of_the_generators_outputs); the list / scalar branches of merge_dicts "
+                 "(ACL rule dicts), TreeGenerator block bookkeeping and _run_partial_generator are bounded only",
                  "match_row_to_acl is proved to raise AclNotExclusiveError iff two generators' rules match the row (exclusive mode) "
                  "relative to the assumed contracts of _find_acl_matches (regex matching) and merge_dicts"],
     ),
     "C13": dict(
         level="exploration",
-        modules=["specs.jsonptr"],
+        modules=["specs.jsonptr", "specs.jsonfrag"],
         bounded=[("bounded.c13", "run")],
         assumes=["A9"],
         trusted=["_resolve_json_pointers is proved: a globbed pointer resolves to exactly the paths that exist in the document and whose "
                  "parts match the pattern parts (depth first, document order), relative to fnmatch.fnmatchcase / jsonpointer.escape / "
                  "JsonPointer (opaque); the model has no str scalars that act as sequences (outside the property's domain)",
+                 "new_json_fragment_files is proved: the generators of one file are applied one after the other, each on the result of "
+                 "the previous one, starting from the device's file or an empty document; the reload command comes from the generator "
+                 "with the largest reload priority among those that changed the file (relative to apply_json_fragment / format_json)",
                  "apply_json_fragment, apply_acl_filters, make_patch / apply_patch are compositions of jsonpointer / jsonpatch "
                  "library calls (set, to_last, JsonPatch.apply), which cannot be brought under contract: bounded only"],
     ),
